@@ -219,17 +219,24 @@ func footer(e *env) {
 	same := func(x, y ast.Expr) bool { return pat.Same(info, strip(info, x), strip(info, y)) }
 	// established: +1 if the fact establishes computed == stored, -1 if it
 	// establishes that they differ; a one-line boolean helper is looked through.
+	var outer map[types.Object]ast.Expr // parameters of a helper the verdict is delegated to -> Footer's arguments
 	established := func(f cfgq.Fact) int {
 		atoms := []cfgq.Fact{f}
-		subst := func(x ast.Expr) ast.Expr { return x }
+		subst := func(x ast.Expr) ast.Expr {
+			if a, ok := outer[objOf(info, strip(info, x))]; ok {
+				return a
+			}
+			return x
+		}
 		if call, ok := ast.Unparen(f.Expr).(*ast.CallExpr); ok {
 			if ret, args := predBody(c, foot, call); ret != nil {
 				atoms = cfgq.Facts(ret, f.Val)
+				prev := subst
 				subst = func(x ast.Expr) ast.Expr {
 					if a, ok := args[objOf(info, strip(info, x))]; ok {
-						return a
+						return prev(a)
 					}
-					return x
+					return prev(x)
 				}
 			}
 		}
@@ -253,14 +260,63 @@ func footer(e *env) {
 	noErr := func(f cfgq.Fact) bool {
 		return f.Val && pat.Expr("_err == nil").Match(info, f.Expr, bd) != nil || !f.Val && pat.Expr("_err != nil").Match(info, f.Expr, bd) != nil
 	}
-	nils := g.Points(isNilRet(info))
-	if len(nils) == 0 {
+	// success exits: `return nil`, or `return h(...)` where the same-package
+	// helper h decides (its own `return nil`s are then judged in h, with h's
+	// parameters standing for the arguments)
+	type exit struct {
+		at     cfgq.Point // in Footer
+		hg     *cfgq.Graph
+		hp     cfgq.Point // in the helper (if hg != nil)
+		params map[types.Object]ast.Expr
+	}
+	var exits []exit
+	for _, p := range g.Points(func(n ast.Node) bool { _, ok := n.(*ast.ReturnStmt); return ok }) {
+		r := p.Node().(*ast.ReturnStmt)
+		if isNilRet(info)(r) {
+			exits = append(exits, exit{at: p})
+			continue
+		}
+		if len(r.Results) != 1 {
+			continue
+		}
+		call, ok := ast.Unparen(r.Results[0]).(*ast.CallExpr)
+		hfn := core.CalleeFunc(info, orCall(call))
+		if !ok || hfn == nil || hfn.Pkg() != foot.Obj.Pkg() {
+			continue
+		}
+		hf := c.FnOf(hfn)
+		ps := hfn.Type().(*types.Signature).Params()
+		if hf == nil || hf.Decl.Body == nil || ps.Len() != len(call.Args) {
+			continue
+		}
+		args := map[types.Object]ast.Expr{}
+		for i := 0; i < ps.Len(); i++ {
+			args[ps.At(i)] = call.Args[i]
+		}
+		hg := cfgq.Of(c.Program, hf)
+		for _, hp := range hg.Points(isNilRet(info)) {
+			exits = append(exits, exit{at: p, hg: hg, hp: hp, params: args})
+		}
+	}
+	if len(exits) == 0 {
 		c.Undecidedf("R3.footer", "Footer/mismatch-rejected", foot.Decl.Pos(), "Footer has no success return")
 		return
 	}
-	for _, p := range nils {
-		ok, w := onlyVia(g, p, eq)
-		switch inv, _ := onlyVia(g, p, neq); {
+	for _, x := range exits {
+		p := x.at
+		via := func(m func(cfgq.Fact) bool) (bool, []string) {
+			if x.hg == nil {
+				return onlyVia(g, p, m)
+			}
+			if ok, w := onlyVia(g, p, m); ok { // already established before the helper is called
+				return ok, w
+			}
+			outer = x.params
+			defer func() { outer = nil }()
+			return onlyVia(x.hg, x.hp, m)
+		}
+		ok, w := via(eq)
+		switch inv, _ := via(neq); {
 		case ok:
 			c.Okf("R3.footer", "Footer/mismatch-rejected", p.Node().Pos(), "Footer succeeds only when the computed CRC equals the stored one")
 		case inv:
@@ -343,9 +399,10 @@ type rng struct{ la, lb, ha, hb int64 }
 // helperSum summarises a same-package helper f(d) that cuts the payload into
 // pieces and reports with a boolean whether it was long enough.
 type helperSum struct {
-	views map[int]rng // result index -> piece, on the returns whose flag is true
-	okIdx int
-	okMin int64 // flag true => len(d) >= okMin
+	views map[int]rng // result index -> piece, on the returns whose flag (if any) is true
+	okIdx int         // index of the "long enough" flag, -1 if the helper has none
+	okMin int64       // flag true (or: helper returned) => len(d) >= okMin
+	needs bool        // the helper slices without testing the length itself: its call must be guarded
 }
 
 // tupleDef: o is defined exactly once, as the idx-th result of a call.
@@ -359,8 +416,11 @@ func (v *verif) tupleDef(o types.Object) (call *ast.CallExpr, idx int, ok bool) 
 			for i, l := range as.Lhs {
 				if objOf(v.info, l) == o {
 					n++
-					if c, isCall := ast.Unparen(as.Rhs[0]).(*ast.CallExpr); isCall && len(as.Rhs) == 1 && len(as.Lhs) > 1 {
-						call, idx = c, i
+					if c, isCall := ast.Unparen(as.Rhs[0]).(*ast.CallExpr); isCall && len(as.Rhs) == 1 {
+						// several results, or the single result of a same-package helper
+						if f := core.CalleeFunc(v.info, c); len(as.Lhs) > 1 || f != nil && f.Pkg() == v.fn.Obj.Pkg() {
+							call, idx = c, i
+						}
 					}
 				}
 			}
@@ -415,9 +475,6 @@ func (v *verif) summary(call *ast.CallExpr) *helperSum {
 			sum.okIdx = i
 		}
 	}
-	if sum.okIdx < 0 {
-		return nil
-	}
 	var trues []cfgq.Point
 	valid := true
 	for _, p := range sub.g.Points(func(n ast.Node) bool { _, ok := n.(*ast.ReturnStmt); return ok }) {
@@ -425,12 +482,14 @@ func (v *verif) summary(call *ast.CallExpr) *helperSum {
 		if len(r.Results) != sig.Results().Len() {
 			return nil // bare return with named results: not followed
 		}
-		flag, isC := boolConst(sub.info, r.Results[sum.okIdx])
-		if !isC {
-			return nil
-		}
-		if !flag {
-			continue
+		if sum.okIdx >= 0 {
+			flag, isC := boolConst(sub.info, r.Results[sum.okIdx])
+			if !isC {
+				return nil
+			}
+			if !flag {
+				continue
+			}
 		}
 		trues = append(trues, p)
 		for i, res := range r.Results {
@@ -458,15 +517,20 @@ func (v *verif) summary(call *ast.CallExpr) *helperSum {
 			sum.okMin = k
 		}
 	}
-	// the helper's own slicing must be protected by the same test
+	// the helper's own slicing is protected by its own test, or the helper
+	// relies on its caller ("the caller guarantees len(d) >= ..."): then the call
+	// itself is an access that the caller's guard has to dominate
 	for _, a := range sub.accesses() {
 		p, found := sub.g.Find(a.e)
 		if !found {
 			return nil
 		}
-		if ok, _ := onlyVia(sub.g, p, func(f cfgq.Fact) bool { return sub.lower(f) >= sum.okMin && sum.okMin > 0 }); !ok {
-			return nil
+		if ok, _ := onlyVia(sub.g, p, func(f cfgq.Fact) bool { return sub.lower(f) >= 10 }); !ok {
+			sum.needs = true
 		}
+	}
+	if sum.needs {
+		sum.okMin = 0
 	}
 	v.helpers[call] = sum
 	return sum
@@ -563,7 +627,7 @@ func (v *verif) lower(f cfgq.Fact) int64 {
 	// the "long enough" flag of a summarised helper
 	if o := objOf(v.info, strip(v.info, f.Expr)); o != nil && f.Val {
 		if call, idx, ok := v.tupleDef(o); ok {
-			if s := v.summary(call); s != nil && idx == s.okIdx {
+			if s := v.summary(call); s != nil && idx == s.okIdx && !s.needs {
 				return s.okMin
 			}
 		}
@@ -648,6 +712,11 @@ func (v *verif) accesses() []access {
 		out = append(out, ac)
 		return true
 	})
+	for call, sum := range v.helpers {
+		if sum != nil && sum.needs {
+			out = append(out, access{e: call, kind: "other", desc: src(call)})
+		}
+	}
 	ast.Inspect(v.fn.Decl.Body, func(n ast.Node) bool {
 		switch x := n.(type) {
 		case *ast.IndexExpr:
